@@ -210,8 +210,8 @@ def check_basic(det, xs, ys):
     if det in ('curvature', 'menger'):
         crit = {i: (curvature_sq if det == 'curvature' else menger_sq)(xs, ys, i) for i in range(1, n - 1)}
         mx = max(crit.values())
-        if det == 'menger' and mx == 0:
-            return False, [], True                       # exactly collinear: no knee, undefined
+        # (an exactly collinear curve has Menger curvature 0 everywhere: every interior index is a maximiser,
+        # and the answer still has to be an interior index)
         if not (1 <= got <= n - 2):
             return False, [Failure(fn, 'not-interior', key, case, 'returned %d for n=%d' % (got, n), (n, 0))], False
         nontriv = len(set(crit.values())) > 1
